@@ -16,6 +16,7 @@ import (
 	"github.com/DistCompiler/pgo/distsys"
 	"github.com/DistCompiler/pgo/distsys/resources"
 	"github.com/DistCompiler/pgo/distsys/tla"
+	"github.com/dgraph-io/badger/v3"
 	"verif/mc/bubble"
 	"verif/mc/explore"
 	"verif/mc/hres"
@@ -122,6 +123,20 @@ func configs(thorough bool) []Config {
 	idx("iinc(1);ir(1)|wtA", Script{iinc(1), ir(1)}, Script{wtA()})
 	idx("iw(1);xir(1)|wtx", Script{iw(1), xir(1)}, Script{wtx()})   // the other sharer aborts by lock timeout on x
 	idx("iw(1);ir(1)|iwA(2)", Script{iw(1), ir(1)}, Script{iwA(2)}) // ... and another sharer's aborted indexed write
+	// (2c) sharers wrapped in resources.MakePersistent (in-memory badger): commits go through Persistent.Commit's goroutine
+	persist := func(name string, ctxs ...Script) {
+		n := len(out)
+		add("persist:"+name, -1, false, ctxs...)
+		for i := n; i < len(out); i++ {
+			out[i].Persist = true
+		}
+	}
+	// (a badger store must be opened inside each bubble, ~50 ms per execution: only the smallest shapes; quick: one timeout setting)
+	quickCombos = 1
+	persist("inc(x)|inc(x)", Script{inc(x)}, Script{inc(x)})
+	persist("iw(1)|rt", Script{iw(1)}, Script{rt()})
+	persist("iwA(1)|rt", Script{iwA(1)}, Script{rt()})
+	quickCombos = 0
 	// (3) three contexts, preemption bound 2 (thorough: then 3)
 	bounds := []int{2}
 	if thorough {
@@ -161,10 +176,15 @@ type world struct {
 	log  *bubble.Log
 
 	aborts atomic.Int32
+	db     *badger.DB
 }
 
 func build(cfg Config, s *bubble.Sched) *world {
 	w := &world{log: &bubble.Log{}}
+	if cfg.Persist && s != nil {
+		w.db = openPersistDB()
+		s.OnDrain(func() { w.db.Close() })
+	}
 	for v := 0; v < len(varNames); v++ {
 		to := 50
 		if v < len(cfg.TimeoutMs) {
@@ -199,8 +219,12 @@ func build(cfg Config, s *bubble.Sched) *world {
 			}}
 			opts = append(opts, distsys.SetFairnessCounter(g))
 			for v, vn := range varNames {
+				var sharer distsys.ArchetypeResource = w.mgrs[v].MakeLocalShared()
+				if cfg.Persist {
+					sharer = resources.MakePersistent(name+"."+vn, w.db, w.mgrs[v].MakeLocalShared())
+				}
 				res := &bubble.Yielding{Th: th, Name: vn, Txn: txn,
-					Inner: &bubble.Logging{Name: vn, Who: name, Log: w.log, Inner: w.mgrs[v].MakeLocalShared()}}
+					Inner: &bubble.Logging{Name: vn, Who: name, Log: w.log, Inner: sharer}}
 				opts = append(opts, distsys.EnsureArchetypeRefParam(vn, res))
 			}
 		} else {
@@ -224,6 +248,17 @@ func build(cfg Config, s *bubble.Sched) *world {
 
 // finalState reads GetState() of every variable the configuration uses through fresh sharers
 // (locations of unused variables keep their initial value).
+// openPersistDB opens an in-memory badger store.  Inside a bubble it must be opened by a goroutine of
+// that bubble (its goroutines, channels and WaitGroups then all belong to it; sharing a store opened
+// outside is fatal: "WaitGroup.Add called from inside and outside synctest bubble").
+func openPersistDB() *badger.DB {
+	db, err := badger.Open(badger.DefaultOptions("").WithInMemory(true).WithLogger(nil).WithNumCompactors(0).WithNumGoroutines(1))
+	if err != nil {
+		panic(err)
+	}
+	return db
+}
+
 func (w *world) finalState(cfg Config) ([]int32, error) {
 	out := append([]int32(nil), initial...)
 	used := usedVars(cfg.Ctxs)
@@ -539,6 +574,9 @@ func weight(cfg Config) int {
 	if cfg.Bound >= 0 {
 		steps *= 4
 	}
+	if cfg.Persist {
+		steps *= 500 // slow executions: start them first
+	}
 	return steps
 }
 
@@ -689,7 +727,7 @@ func TestCheck(t *testing.T) {
 			"leaked_bubbles":        leakedB,
 			"largest_configuration": map[string]any{"config": slowest.Cfg, "executions": slowest.Executions, "wall_s": slowest.WallS},
 			"shard_workers":         env.Workers,
-			"bounds":                "2 contexts x 1 section: all 91 pairs of 13 section shapes (<=4 accesses, both acquisition orders), unbounded preemptions; 2 contexts x 2 sections: 3 (thorough 4) configurations, unbounded, thorough also the 2 largest at preemption bound 4; 3 contexts: 5 configurations at preemption bound 2 (thorough also 3); lock timeouts per variable in {1 ms, 50 ms}; 'timer fires first' may be chosen 2 (thorough 3) times per execution while another move is enabled and is forced whenever nothing else can move; after 3 (thorough 4) aborted attempts in one execution no further alternatives are explored (the execution is finished on the default schedule and still judged)",
+			"bounds":                "2 contexts x 1 section: all 91 pairs of 13 whole-variable section shapes (<=4 accesses, both acquisition orders), unbounded preemptions; 19 two-context configurations over a function-valued shared variable t accessed through Index() (indexed write only, increment of one element, indexed against whole-variable write/read, indexed write then abort of the section by await FALSE or by a lock timeout on x held by the other context, committed indexed write followed by another sharer's aborted whole-variable or indexed write), unbounded; 3 smallest shapes with every sharer wrapped in resources.MakePersistent over an in-memory badger store opened inside the bubble; 2 contexts x 2 sections: 3 (thorough 4) configurations, unbounded, thorough also the 2 largest at preemption bound 4; 3 contexts: 7 configurations (2 with indexed access) at preemption bound 2 (thorough also 3); lock timeouts per variable in {1 ms, 50 ms}; 'timer fires first' may be chosen 2 (thorough 3) times per execution while another move is enabled and is forced whenever nothing else can move; after 3 (thorough 4) aborted attempts in one execution no further alternatives are explored (the execution is finished on the default schedule and still judged)",
 		}
 		if env.Thorough() {
 			cov["race_pass"] = racePass(env)
